@@ -7,6 +7,8 @@ import vlib
 
 KINDS = {
     "exec": dict(exe=1), "write": dict(wr=1), "selfwrite": dict(wr=1, pid=mc.SELF), "both": dict(exe=1, wr=1),
+    # process id 0 is what the kernel reports for a process outside the daemon's pid namespace: an ordinary foreign id
+    "pid0write": dict(wr=1, pid=0),
     "none": dict(), "overflow": dict(ovf=1, fd=0), "badvers": dict(vers=0, exe=1), "shortread": dict(read=1, exe=1),
     "failedread": dict(read=2, wr=1), "pollerr": dict(poll=2), "pollhup": dict(poll=3), "wakeup": dict(poll=1),
     "execfail": dict(exe=1, execok=0), "writefail": dict(wr=1, writeok=0), "timeoutfail": dict(wr=1, timeout="err"),
@@ -97,7 +99,7 @@ def main(rep):
     rep.cov["distinct_nontrivial"] = len(cases)
     rep.cov["exhaustive"] = True
     rep.cov["input_distribution"] = {"scripts of up to %d slots over %d slot kinds" % (depth, len(names)): len(cases)}
-    rep.cov["rule"] = ("all scripts of up to %d slots over {exec, write, write by the daemon itself, both bits, neither bit, overflow marker, bad version, short read, "
+    rep.cov["rule"] = ("all scripts of up to %d slots over {exec, write, write by process id 0, write by the daemon itself, both bits, neither bit, overflow marker, bad version, short read, "
                        "failed read, poll error, POLLHUP, wake-up without event, failing exec / write / timeout handler}, pauses from {0,3,-1,2147483,2147484,5000000}, "
                        "on the real main() with poll/read/close and the handler entry points scripted; the monitor recomputes the required actions slot by slot" % depth)
     rep.cov["samples"] = [cases[20][1].split("\n")[-5:]]
